@@ -123,8 +123,11 @@ pub fn draw(r: &mut Rng, profile: Profile, enabled: &[String]) -> (E1Config, Kno
     // positions allowed to write (under tight size pressure only short-id nodes own data, so that
     // "digest + node op + one key-value fit a datagram" keeps holding)
     let mut writers: Vec<usize> = (0..n).collect();
+    // scoped link-local addresses only where the wire oracles classify their known finding (KF-4)
+    // (kind 4, scoped link-local addresses, is not drawn here: its known finding KF-4 is reproduced by
+    // E3-wire, where it does not contaminate the cluster-level oracles)
     let addr_kind = *r.pick(&[0u8, 0, 0, 0, 0, 0, 1, 2, 3]);
-    let ipv6 = r.chance(0.3) || addr_kind == 1 || addr_kind == 2;
+    let ipv6 = r.chance(0.3) || addr_kind == 1 || addr_kind == 2 || addr_kind == 4;
     let addr_bytes = if ipv6 { 19 } else { 7 };
     if profile == Profile::SizePressure {
         if r.chance(0.6) {
